@@ -12,7 +12,7 @@ def main():
     ap.add_argument("--replay", default=None)
     a = ap.parse_args()
     tier = a.tier if a.tier in ("quick", "thorough") else "quick"
-    seed = int(os.environ.get("VERIF_SEED", "20260925"))
+    seed = int(os.environ.get("VERIF_SEED", "1"))
     ctx = lib.Ctx(a.pid, tier, seed)
     mod = importlib.import_module("props." + a.pid)
     if a.replay:
